@@ -94,6 +94,12 @@ def marchTet (s : Vid → Bool) (t : Tet) : List (Tri (SV Vid)) := marchTetM (t.
 
 def marchTets (s : Vid → Bool) (ts : List Tet) : List (Tri (SV Vid)) := ts.flatMap (marchTet s)
 
+def Tet.verts (t : Tet) : List Vid := [t.v0, t.v1, t.v2, t.v3]
+
+/-- extra hypothesis of the edge-manifold clause: no two tets of the complex (at different
+    positions of the list) have the same vertex set -/
+def TetSetsDistinct (ts : List Tet) : Prop := ts.Pairwise fun t t' => ¬ t.verts.Perm t'.verts
+
 /-! ### Oriented faces of tets and the segment a face carries -/
 
 abbrev Face := Vid × Vid × Vid
